@@ -384,7 +384,7 @@ ex_replay_result(int fails, const char *fmt, ...)
 
 /* ---- watchdog: hangs and crashes are observations ----
  * EX_GUARD(rc) { ...case... } sets rc = 0 normally, 1 when the guarded code
- * made no progress for >= 1 timer period (hang), 2 on a fatal signal. */
+ * made no progress for >= 1 timer period of CPU time (hang), 2 on a fatal signal. */
 static sigjmp_buf ex_jb;
 static volatile sig_atomic_t ex_armed;
 static volatile uint64_t ex_progress;
@@ -423,7 +423,8 @@ ex_wd_init(int period_ms)
 	memset(&sa, 0, sizeof(sa));
 	sa.sa_handler = ex_wd_alarm;
 	sa.sa_flags = SA_NODEFER;
-	sigaction(SIGALRM, &sa, NULL);
+	/* CPU time, not wall time: a busy machine must not look like a hang */
+	sigaction(SIGVTALRM, &sa, NULL);
 	sa.sa_handler = ex_wd_fatal;
 	sa.sa_flags = SA_NODEFER;
 	sigaction(SIGSEGV, &sa, NULL);
@@ -433,7 +434,7 @@ ex_wd_init(int period_ms)
 	it.it_interval.tv_sec = period_ms / 1000;
 	it.it_interval.tv_usec = (period_ms % 1000) * 1000;
 	it.it_value = it.it_interval;
-	setitimer(ITIMER_REAL, &it, NULL);
+	setitimer(ITIMER_VIRTUAL, &it, NULL);
 }
 /* usage:  int rc = sigsetjmp(ex_jb, 0); if (rc == 0) { ex_armed = 1; ...; ex_armed = 0; }
  * the macro form keeps it readable */
